@@ -36,7 +36,9 @@ VARIABLES l,       \* position in Rec
           seenj,   \* art: number reported so far
           seq,     \* last sequence number of the run
           pre,     \* cache: observation after the previous event (<<>> at the start of a run)
-          viol, devs, cnt
+          viol, devs,
+          kc,      \* fixed counters
+          cnt      \* counters with computed names (coverage classes)
 
 Bump(c, key, n) == IF n = 0 THEN c ELSE IF key \in DOMAIN c THEN [c EXCEPT ![key] = @ + n] ELSE c @@ (key :> n)
 Count(S) == Cardinality(S)
@@ -64,57 +66,62 @@ ArtDev(pos, newbyte, code, judged) ==
   ELSE IF Known("F07c") /\ H.kind = "aidx" /\ pos = AidxHashBytesPos(ArtBytes) /\ code = 4 THEN "F07c"
   ELSE ""
 
-\* items of an event: <<position (or -1), new byte (or -1), judged, class, code>>
-Items(e) ==
-  CASE e.op = "flip"   -> [i \in 1..Len(e.v) |-> [pos |-> e.pos, nb |-> IgB(ArtBytes, e.pos) ^^ Pow2(i - 1),
-                                                  j |-> FlipJudged(regs, e.pos), cls |-> PosClass(regs, e.pos), code |-> e.v[i]]]
-    [] e.op = "subst"  -> [i \in 1..Len(e.v) |-> [pos |-> e.pos, nb |-> e.vals[i],
-                                                  j |-> FlipJudged(regs, e.pos), cls |-> PosClass(regs, e.pos), code |-> e.v[i]]]
-    [] e.op = "trunc"  -> [i \in 1..Len(e.v) |-> [pos |-> 0 - 1, nb |-> 0 - 1, j |-> TruncJudged(regs, e.m0 + i - 1),
-                                                  cls |-> IF TruncJudged(regs, e.m0 + i - 1) THEN "prot" ELSE "other", code |-> e.v[i]]]
-    [] e.op = "extend" -> [i \in 1..Len(e.v) |-> [pos |-> 0 - 1, nb |-> 0 - 1, j |-> ExtendJudged(H.kind),
-                                                  cls |-> IF ExtendJudged(H.kind) THEN "prot" ELSE "other", code |-> e.v[i]]]
-    [] OTHER -> <<>>
+\* ---- an event = the verdict codes of a block of concrete faults:
+\*   flip   ps[a] = position, v[a][i] = code of flipping bit i-1
+\*   subst  ps[a] = position, vals[a][i] = new byte, v[a][i] = code
+\*   trunc  ms[a] = new length, v[a] = code;  extend  ns[a] bytes of fills[a] appended, v[a] = code
+Sum(n, F(_)) == LET RECURSIVE G(_, _)
+                    G(a, acc) == IF a > n THEN acc ELSE G(a + 1, acc + F(a))
+                IN G(1, 0)
+Ascending(q) == \A a \in 1..(Len(q) - 1) : q[a] < q[a + 1]
 ShapeOK(e) ==
-  CASE e.op = "flip"   -> H.fault = "flip" /\ Len(e.v) = 8 /\ e.pos \in 0..(H.len - 1)
-    [] e.op = "subst"  -> H.fault = "subst" /\ Len(e.v) = Len(e.vals) /\ e.pos \in 0..(H.len - 1)
-                          /\ \A i \in 1..Len(e.vals) : e.vals[i] \in 0..255 /\ e.vals[i] # IgB(ArtBytes, e.pos)
-    [] e.op = "trunc"  -> H.fault = "trunc" /\ e.m0 >= 0 /\ e.m0 + Len(e.v) <= H.len
-    [] e.op = "extend" -> H.fault = "extend" /\ Len(e.v) = 1 /\ e.n >= 1
+  CASE e.op = "flip"   -> /\ H.fault = "flip" /\ Len(e.ps) >= 1 /\ Len(e.v) = Len(e.ps) /\ Ascending(e.ps)
+                          /\ \A a \in 1..Len(e.ps) : e.ps[a] \in 0..(H.len - 1) /\ Len(e.v[a]) = 8
+    [] e.op = "subst"  -> /\ H.fault = "subst" /\ Len(e.ps) >= 1 /\ Len(e.v) = Len(e.ps) /\ Len(e.vals) = Len(e.ps) /\ Ascending(e.ps)
+                          /\ \A a \in 1..Len(e.ps) : /\ e.ps[a] \in 0..(H.len - 1) /\ Len(e.v[a]) = Len(e.vals[a])
+                                                     /\ \A i \in 1..Len(e.vals[a]) : e.vals[a][i] \in 0..255 /\ e.vals[a][i] # IgB(ArtBytes, e.ps[a])
+    [] e.op = "trunc"  -> /\ H.fault = "trunc" /\ Len(e.ms) >= 1 /\ Len(e.v) = Len(e.ms) /\ Ascending(e.ms)
+                          /\ \A a \in 1..Len(e.ms) : e.ms[a] \in 0..(H.len - 1)
+    [] e.op = "extend" -> H.fault = "extend" /\ Len(e.ns) >= 1 /\ Len(e.v) = Len(e.ns) /\ \A a \in 1..Len(e.ns) : e.ns[a] >= 1
     [] e.op = "check"  -> H.fault = "produce"
     [] OTHER -> FALSE
-JudgedUnits(e, it) ==      \* what seenj counts: positions (flip, subst) or lengths (trunc)
-  CASE e.op \in {"flip", "subst"} -> IF Len(it) > 0 /\ it[1].j THEN 1 ELSE 0
-    [] e.op = "trunc" -> Count({i \in 1..Len(it) : it[i].j})
-    [] OTHER -> 0
+NewByte(e, a, i) == IF e.op = "flip" THEN IgB(ArtBytes, e.ps[a]) ^^ Pow2(i - 1) ELSE e.vals[a][i]
+Tally(kk, n, nj, nrej, nuacc, nualt, np, nh) ==
+  [kk EXCEPT !.faults = @ + n, !.judged = @ + nj, !.judged_rejected = @ + nrej, !.unjudged_accepted = @ + nuacc,
+             !.unjudged_accepted_altered = @ + nualt, !.panics = @ + np, !.huge_allocs = @ + nh]
 
 ArtEvent(e) ==
   LET shape == ShapeOK(e) /\ e.seq = seq + 1
-      it    == IF shape THEN Items(e) ELSE <<>>
-      I     == 1..Len(it)
-      bad   == {i \in I : ~FaultOK(it[i].j, it[i].code)}
-      dv(i) == ArtDev(it[i].pos, it[i].nb, it[i].code, it[i].j)
-      \* a panic is never a clean rejection: outside the judged classes it is counted, not judged
-      unexpl == {i \in bad : dv(i) = ""}
-      fids  == {dv(i) : i \in bad} \ {""}
-      key   == H.kind \o "_" \o H.fault \o "_"
-      c1    == Bump(cnt, "faults", Len(it))
-      c2    == Bump(c1, "judged", Count({i \in I : it[i].j}))
-      c3    == Bump(c2, "judged_rejected", Count({i \in I : it[i].j /\ Rejected(it[i].code)}))
-      c4    == Bump(c3, "unjudged_accepted", Count({i \in I : ~it[i].j /\ Accepted(it[i].code)}))
-      c5    == Bump(c4, "unjudged_accepted_altered", Count({i \in I : ~it[i].j /\ it[i].code = 3}))
-      c6    == Bump(Bump(c5, "panics", Count({i \in I : it[i].code = 4})), "huge_allocs", Count({i \in I : it[i].code = 5}))
-      c7    == Bump(c6, "cls_" \o key \o "prot", Count({i \in I : it[i].cls = "prot"}))
-      c8    == Bump(c7, "cls_" \o key \o "check", Count({i \in I : it[i].cls = "check"}))
-      c9    == Bump(c8, "cls_" \o key \o "free", Count({i \in I : it[i].cls = "free"}))
-      c10   == Bump(c9, "cls_" \o key \o "other", Count({i \in I : it[i].cls = "other"}))
+      posEv == e.op \in {"flip", "subst"}
       chk   == e.op = "check"
+      nA    == IF ~shape \/ chk THEN 0 ELSE Len(e.v)
+      A     == 1..nA
+      \* codes of unit a (a position: several faults; a length: one)
+      cs(a) == IF posEv THEN e.v[a] ELSE <<e.v[a]>>
+      jd(a) == IF posEv THEN FlipJudged(regs, e.ps[a])
+               ELSE IF e.op = "trunc" THEN TruncJudged(regs, e.ms[a]) ELSE ExtendJudged(H.kind)
+      cl(a) == IF posEv THEN PosClass(regs, e.ps[a]) ELSE IF jd(a) THEN "prot" ELSE "other"
+      JA    == {a \in A : jd(a)}
+      bad   == {<<a, i>> \in UNION {{<<a, i>> : i \in 1..Len(cs(a))} : a \in JA} : ~Rejected(cs(a)[i])}
+      dv(x) == ArtDev(IF posEv THEN e.ps[x[1]] ELSE 0 - 1, IF posEv THEN NewByte(e, x[1], x[2]) ELSE 0 - 1, cs(x[1])[x[2]], TRUE)
+      unexpl == {x \in bad : dv(x) = ""}
+      fids  == {dv(x) : x \in bad} \ {""}
+      N(P(_, _)) == Sum(nA, LAMBDA a : Count({i \in 1..Len(cs(a)) : P(a, i)}))
+      nAll  == Sum(nA, LAMBDA a : Len(cs(a)))
+      nJ    == Sum(nA, LAMBDA a : IF jd(a) THEN Len(cs(a)) ELSE 0)
+      k2    == Tally(kc, nAll, nJ, nJ - Count(bad),
+                     N(LAMBDA a, i : ~jd(a) /\ Accepted(cs(a)[i])), N(LAMBDA a, i : ~jd(a) /\ cs(a)[i] = 3),
+                     N(LAMBDA a, i : cs(a)[i] = 4), N(LAMBDA a, i : cs(a)[i] = 5))
       pok   == chk /\ shape /\ ProduceOK(H.kind, ArtBytes, H.x)
-      c11   == IF chk THEN Bump(Bump(c10, "produce_checked", 1), "spec_mismatch", IF pok THEN 0 ELSE 1) ELSE c10
+      pre_  == "cls_" \o H.kind \o "_" \o H.fault \o "_"
+      NC(c) == Sum(nA, LAMBDA a : IF cl(a) = c THEN Len(cs(a)) ELSE 0)
   IN /\ viol' = IF ~shape \/ unexpl # {} THEN Append(viol, l) ELSE viol
      /\ devs' = IF shape /\ unexpl = {} /\ fids # {} THEN devs \o SetToSeqT(fids) ELSE devs
-     /\ cnt' = c11
-     /\ seenj' = seenj + JudgedUnits(e, it)
+     /\ kc' = IF chk THEN [kc EXCEPT !.produce_checked = @ + 1, !.spec_mismatch = @ + (IF pok THEN 0 ELSE 1)] ELSE k2
+     /\ cnt' = IF chk \/ ~shape THEN cnt
+               ELSE Bump(Bump(Bump(Bump(cnt, pre_ \o "prot", NC("prot")), pre_ \o "check", NC("check")), pre_ \o "free", NC("free")),
+                         pre_ \o "other", NC("other"))
+     /\ seenj' = seenj + Count(JA)
      /\ seq' = e.seq
      /\ UNCHANGED <<mode, run, regs, expj, pre>>
 
@@ -124,9 +131,9 @@ ValEvent(e) ==
   LET eq   == DataDigest(e.data) = e.ck
       good == e.op = "validate" /\ e.seq = seq + 1 /\ ((e.res = "true" /\ eq) \/ (e.res = "false" /\ ~eq))
   IN /\ viol' = IF good THEN viol ELSE Append(viol, l)
-     /\ cnt' = Bump(Bump(cnt, "val_true", IF e.res = "true" THEN 1 ELSE 0), "val_false", IF e.res = "false" THEN 1 ELSE 0)
+     /\ kc' = [kc EXCEPT !.val_true = @ + (IF e.res = "true" THEN 1 ELSE 0), !.val_false = @ + (IF e.res = "false" THEN 1 ELSE 0)]
      /\ seq' = e.seq
-     /\ UNCHANGED <<mode, run, regs, expj, seenj, pre, devs>>
+     /\ UNCHANGED <<mode, run, regs, expj, seenj, pre, devs, cnt>>
 
 \* ---------------------------------------------------------------- cache
 CacheNews == {i \in 1..Len(Rec) : Rec[i].op = "new" /\ Rec[i].part = "cache"}
@@ -144,8 +151,8 @@ DigestOf(c) ==
   ELSE c.md5
 CValidating == H.comp # "ml" \/ H.hooks # "none"
 NLayers == Len(H.kinds)
-PreAt(i, k) == IF pre = <<>> THEN NoC ELSE pre[i][k]
-FirstPre(k) == LET S == {i \in 1..NLayers : ~IsNone(PreAt(i, k))} IN IF S = {} THEN 0 ELSE IgMin(S)
+PreAt(i, key) == IF pre = <<>> THEN NoC ELSE pre[i][key]
+FirstPre(key) == LET S == {i \in 1..NLayers : ~IsNone(PreAt(i, key))} IN IF S = {} THEN 0 ELSE IgMin(S)
 
 CacheEvent(e) ==
   LET panic == "panic" \in DOMAIN e.res
@@ -171,51 +178,54 @@ CacheEvent(e) ==
       getDev  == isGet /\ ~(p1 /\ p2 /\ p3) /\ Known("F07d") /\ H.comp = "ml" /\ isSome /\ IsBig(e.res.some)
       good    == shape /\ ~panic /\ putGood /\ p1 /\ p2 /\ p3
       dev     == shape /\ ~panic /\ (putDev \/ getDev) /\ (isPut \/ isGet)
-      c1 == Bump(cnt, "cache_events", 1)
-      c2 == Bump(c1, "gets_valid", IF valid THEN 1 ELSE 0)
-      c3 == Bump(c2, "gets_refused", IF isGet /\ hasck /\ "err" \in DOMAIN e.res THEN 1 ELSE 0)
-      c4 == Bump(c3, "gets_refused_corrupt", IF isGet /\ corrupt /\ ~isSome THEN 1 ELSE 0)
-      c5 == Bump(c4, "puts_ok", IF putOk THEN 1 ELSE 0)
-      c6 == Bump(c5, "puts_refused", IF isPut /\ ~putOk /\ ~matches THEN 1 ELSE 0)
-      c7 == Bump(c6, "damages", IF e.op \in {"corrupt", "delete"} /\ "hit" \in DOMAIN e.res /\ e.res.hit THEN 1 ELSE 0)
-      c8 == Bump(c7, "cac_corrupt_left_in_place", IF H.comp # "ml" /\ corrupt /\ same THEN 1 ELSE 0)
-      c9 == Bump(c8, "gone_after_checked", IF H.comp = "ml" /\ CValidating /\ corrupt THEN 1 ELSE 0)
+      B(x) == IF x THEN 1 ELSE 0
   IN /\ viol' = IF good \/ dev THEN viol ELSE Append(viol, l)
      /\ devs' = IF ~good /\ dev THEN Append(devs, <<l, "F07d">>) ELSE devs
-     /\ cnt' = c9
+     /\ kc' = [kc EXCEPT !.cache_events = @ + 1, !.gets_valid = @ + B(valid),
+                         !.gets_refused = @ + B(isGet /\ hasck /\ "err" \in DOMAIN e.res),
+                         !.gets_refused_corrupt = @ + B(isGet /\ corrupt /\ ~isSome),
+                         !.puts_ok = @ + B(putOk), !.puts_refused = @ + B(isPut /\ ~putOk /\ ~matches),
+                         !.damages = @ + B(e.op \in {"corrupt", "delete"} /\ "hit" \in DOMAIN e.res /\ e.res.hit),
+                         !.cac_corrupt_left_in_place = @ + B(H.comp # "ml" /\ corrupt /\ same),
+                         !.gone_after_checked = @ + B(H.comp = "ml" /\ CValidating /\ corrupt)]
      /\ pre' = IF shape THEN e.obs ELSE pre
      /\ seq' = e.seq
-     /\ UNCHANGED <<mode, run, regs, expj, seenj>>
+     /\ UNCHANGED <<mode, run, regs, expj, seenj, cnt>>
 
 \* ------------------------------------------------------------------ runs
 CoverageGap == mode = "art" /\ expj >= 0 /\ seenj # expj
-Closed(c) == Bump(c, "coverage_gap", IF CoverageGap THEN 1 ELSE 0)
+Closed(kk) == [kk EXCEPT !.coverage_gap = @ + (IF CoverageGap THEN 1 ELSE 0)]
 
 NewRun(e) ==
-  LET c0 == Closed(cnt) IN
+  LET k0 == Closed(kc) IN
   /\ mode' = e.part /\ run' = l /\ seq' = 0 /\ pre' = <<>> /\ seenj' = 0
   /\ IF e.part = "art" THEN
         LET wf == ArtWF(e)
             R  == IF wf THEN Regions(e.kind, e.bytes) ELSE {}
         IN /\ regs' = R
            /\ expj' = IF wf THEN ExpectedJudged(e, R) ELSE 0 - 1
-           /\ cnt' = Bump(Bump(Bump(c0, "runs_art", 1), "malformed_artifact", IF wf THEN 0 ELSE 1),
-                          "baseline_rejected", IF e.base = 2 THEN 0 ELSE 1)
+           /\ kc' = [k0 EXCEPT !.runs_art = @ + 1, !.malformed_artifact = @ + (IF wf THEN 0 ELSE 1),
+                               !.baseline_rejected = @ + (IF e.base = 2 THEN 0 ELSE 1)]
      ELSE IF e.part = "cache" THEN
         /\ regs' = {} /\ expj' = 0 - 1
-        /\ cnt' = Bump(Bump(c0, "runs_cache", 1), "table_mismatch", IF e.vals = ValTable /\ e.cks = CkTable THEN 0 ELSE 1)
-     ELSE /\ regs' = {} /\ expj' = 0 - 1 /\ cnt' = Bump(c0, "runs_val", 1)
-  /\ UNCHANGED <<viol, devs>>
+        /\ kc' = [k0 EXCEPT !.runs_cache = @ + 1, !.table_mismatch = @ + (IF e.vals = ValTable /\ e.cks = CkTable THEN 0 ELSE 1)]
+     ELSE /\ regs' = {} /\ expj' = 0 - 1 /\ kc' = [k0 EXCEPT !.runs_val = @ + 1]
+  /\ UNCHANGED <<viol, devs, cnt>>
 
+K0 == [faults |-> 0, judged |-> 0, judged_rejected |-> 0, unjudged_accepted |-> 0, unjudged_accepted_altered |-> 0,
+       panics |-> 0, huge_allocs |-> 0, produce_checked |-> 0, spec_mismatch |-> 0, runs_art |-> 0, runs_cache |-> 0,
+       runs_val |-> 0, malformed_artifact |-> 0, baseline_rejected |-> 0, table_mismatch |-> 0, coverage_gap |-> 0,
+       val_true |-> 0, val_false |-> 0, cache_events |-> 0, gets_valid |-> 0, gets_refused |-> 0, gets_refused_corrupt |-> 0,
+       puts_ok |-> 0, puts_refused |-> 0, damages |-> 0, cac_corrupt_left_in_place |-> 0, gone_after_checked |-> 0]
 TInit == /\ l = 1 /\ mode = "none" /\ run = 1 /\ regs = {} /\ expj = 0 - 1 /\ seenj = 0 /\ seq = 0 /\ pre = <<>>
-         /\ viol = <<>> /\ devs = <<>> /\ cnt = ("events_seen" :> 0)
+         /\ viol = <<>> /\ devs = <<>> /\ kc = K0 /\ cnt = [x \in {} |-> 0]
 
 Step ==
   /\ l <= Len(Rec)
   /\ LET e == Rec[l] IN
      IF e.op = "new" THEN NewRun(e)
      ELSE IF e.op = "hang" \/ mode = "none" THEN      \* a call that never returned, or an event outside any run
-        /\ viol' = Append(viol, l) /\ UNCHANGED <<mode, run, regs, expj, seenj, seq, pre, devs, cnt>>
+        /\ viol' = Append(viol, l) /\ UNCHANGED <<mode, run, regs, expj, seenj, seq, pre, devs, kc, cnt>>
      ELSE IF mode = "art" THEN ArtEvent(e)
      ELSE IF mode = "val" THEN ValEvent(e)
      ELSE CacheEvent(e)
@@ -223,5 +233,5 @@ Step ==
 
 TNext == Step
 Done == (l = Len(Rec) + 1) =>
-  PrintT(<<"VERDICT", ToJson([events |-> Len(Rec), violations |-> viol, deviations |-> devs] @@ Closed(cnt))>>)
+  PrintT(<<"VERDICT", ToJson([events |-> Len(Rec), violations |-> viol, deviations |-> devs] @@ Closed(kc) @@ cnt)>>)
 =============================================================================
